@@ -7,7 +7,7 @@ import json, sys
 
 def records(trace, want_mc, max_len):
     for l in open(trace):
-        if '"steps"' not in l or len(l) > max_len:
+        if '"steps"' not in l or len(l) > max_len or '"nomodel"' in l:
             continue
         r = json.loads(l)
         # (numbers beyond TLC's 32-bit integers cannot be represented in the specification)
